@@ -1373,14 +1373,14 @@ def dsk8(ctx, c):
                 calls.setdefault(e[2], []).append(e[3])
         problems = []
 
-        def need(cond, text):
+        def need(aspect, cond, text):
             if not cond:
-                problems.append(text)
+                problems.append((aspect, text))
         pre_obj, post_obj = "<%s object>" % want_pre, ("<%s object>" % want_post if want_post else "None")
         news = [e[1] for e in events if e[0] == "new"]
-        need(want_pre in news, "no %s is built for a %s file (built: %s)" % (want_pre, kind, news))
+        need("header", want_pre in news, "no %s is built for a %s file (built: %s)" % (want_pre, kind, news))
         if want_post:
-            need(want_post in news, "no %s is built for a %s file" % (want_post, kind))
+            need("header", want_post in news, "no %s is built for a %s file" % (want_post, kind))
         # fields of the header / trailer objects
         fields = {}
         for e in events:
@@ -1389,62 +1389,64 @@ def dsk8(ctx, c):
                     fields[(e[1], k)] = v
         if kind != "ASCII":
             dl = str(fields.get((want_pre, "data_length"), ""))
-            need("len(%s.data)" % p_file in dl, "the %s header's data_length is %s, not the length of the file's data" % (kind, dl or "never set"))
+            need("header", "len(%s.data)" % p_file in dl, "the %s header's data_length is %s, not the length of the file's data" % (kind, dl or "never set"))
         if kind == "machine-language":
             la = str(fields.get((want_pre, "load_addr"), ""))
-            need(la == "%s.load_addr" % p_file, "the header's load_addr is %s, not the file's load address" % (la or "never set"))
+            need("header", la == "%s.load_addr" % p_file, "the header's load_addr is %s, not the file's load address" % (la or "never set"))
             ea = str(fields.get((want_post, "exec_addr"), ""))
-            need(ea == "%s.exec_addr" % p_file, "the trailer's exec_addr is %s, not the file's entry address" % (ea or "never set"))
+            need("header", ea == "%s.exec_addr" % p_file, "the trailer's exec_addr is %s, not the file's entry address" % (ea or "never set"))
         # allocation list
         lists = [e for e in events if e[0] == "call" and e[2] == "append" and any("find_empty_granule" in a for a in e[3])]
         grans = None
         if not lists:
             alt = [k for k, v in env.items() if isinstance(v, str) and "find_empty_granule" in v and "[" in v]
-            need(bool(alt), "the granule returned by find_empty_granule is never recorded in the allocation list")
+            need("allocation", bool(alt), "the granule returned by find_empty_granule is never recorded in the allocation list")
         else:
             grans = lists[0][1]
         wd, wg, wf = calls.get("write_dir_entry"), calls.get("write_to_granules"), calls.get("write_to_fat")
-        need(bool(wd), "write_dir_entry is never called: the file gets no directory entry")
-        need(bool(wg), "write_to_granules is never called: the data is never stored")
-        need(bool(wf), "write_to_fat is never called: the granules stay marked but unchained")
+        need("directory", bool(wd), "write_dir_entry is never called: the file gets no directory entry")
+        need("fat", bool(wg), "write_to_granules is never called: the data is never stored")
+        need("fat", bool(wf), "write_to_fat is never called: the granules stay marked but unchained")
         if wd and len(wd[0]) >= 4:
             a = wd[0]
-            need("find_empty_directory_entry" in a[0], "the directory slot passed to write_dir_entry is %s" % a[0])
-            need(a[1] == p_file, "write_dir_entry receives %s as the file" % a[1])
+            need("directory", "find_empty_directory_entry" in a[0], "the directory slot passed to write_dir_entry is %s" % a[0])
+            need("directory", a[1] == p_file, "write_dir_entry receives %s as the file" % a[1])
             if grans:
-                need(a[2] == "%s[0]" % grans, "the first granule recorded in the directory entry is %s, not %s[0]" % (a[2], grans))
-            need("calculate_last_sector_bytes_used" in a[3], "the last-sector byte count passed to write_dir_entry is %s" % a[3])
+                need("directory", a[2] == "%s[0]" % grans, "the first granule recorded in the directory entry is %s, not %s[0]" % (a[2], grans))
+            need("directory", "calculate_last_sector_bytes_used" in a[3], "the last-sector byte count passed to write_dir_entry is %s" % a[3])
         if wg and len(wg[0]) >= 4:
             a = wg[0]
-            need(a[0] == "%s.data" % p_file, "write_to_granules stores %s, not the file's data" % a[0])
+            need("data", a[0] == "%s.data" % p_file, "write_to_granules stores %s, not the file's data" % a[0])
             if grans:
-                need(a[1] == grans, "write_to_granules lays the data over %s, not the allocation list %s" % (a[1], grans))
-            need(a[2] == pre_obj, "write_to_granules receives %s as header (a %s file needs %s)" % (a[2], kind, pre_obj))
-            need(a[3] == post_obj, "write_to_granules receives %s as trailer (a %s file needs %s)" % (a[3], kind, post_obj))
+                need("header", a[1] == grans, "write_to_granules lays the data over %s, not the allocation list %s" % (a[1], grans))
+            need("header", a[2] == pre_obj, "write_to_granules receives %s as header (a %s file needs %s)" % (a[2], kind, pre_obj))
+            need("header", a[3] == post_obj, "write_to_granules receives %s as trailer (a %s file needs %s)" % (a[3], kind, post_obj))
         if wf and len(wf[0]) >= 2:
             a = wf[0]
             if grans:
-                need(a[0] == grans, "write_to_fat chains %s, not the allocation list %s" % (a[0], grans))
-            need("calculate_last_granules_sectors_used" in a[1], "the sector count passed to write_to_fat is %s" % a[1])
+                need("fat", a[0] == grans, "write_to_fat chains %s, not the allocation list %s" % (a[0], grans))
+            need("fat", "calculate_last_granules_sectors_used" in a[1], "the sector count passed to write_to_fat is %s" % a[1])
         for fname in ("calculate_granules_needed", "calculate_last_sector_bytes_used", "calculate_last_granules_sectors_used"):
             for a in calls.get(fname, []):
                 if len(a) >= 3:
-                    need(a[0] == "%s.data" % p_file and a[1] == pre_obj and a[2] == post_obj,
+                    need("length", a[0] == "%s.data" % p_file and a[1] == pre_obj and a[2] == post_obj,
                          "%s is given (%s) for a %s file; it needs the file's data, its %s and %s" % (fname, ", ".join(a), kind, pre_obj, post_obj))
         if grans:
             reorder = [e for e in events if e[0] == "call" and e[1] == grans and e[2] in ("sort", "reverse", "pop", "remove", "insert", "clear")]
             if reorder:
-                need(False, "the allocation list is changed by %s.%s() between the steps that use it: the directory entry, the data and the FAT chain no longer describe the same sequence of granules"
+                need("allocation", False, "the allocation list is changed by %s.%s() between the steps that use it: the directory entry, the data and the FAT chain no longer describe the same sequence of granules"
                      % (grans, reorder[0][2]))
         order = [e[2] for e in events if e[0] == "call" and e[1] == "self" and e[2] in ("find_empty_granule", "write_to_granules", "write_to_fat")]
         if "find_empty_granule" in order and "write_to_granules" in order:
-            need(order.index("find_empty_granule") < order.index("write_to_granules"), "data is written before granules are allocated")
+            need("allocation", order.index("find_empty_granule") < order.index("write_to_granules"), "data is written before granules are allocated")
         if not problems:
             c.ok(site, "header/trailer from the file, granules recorded, directory entry + data + FAT written from this file's values", where)
         elif notes:
-            c.undecided(site, "pipeline-not-evaluable", "%s; not evaluated: %s" % (problems[0], "; ".join(sorted(set(notes)))[:100]), where)
+            c.undecided(site, "pipeline-not-evaluable", "%s; not evaluated: %s" % (problems[0][1], "; ".join(sorted(set(notes)))[:100]), where)
         else:
-            c.finding(site, problems[0][:110], "DiskFile.add_file evaluated for a %s file: %s" % (kind, "; ".join(problems)), where)
+            for aspect in sorted({a_ for a_, _ in problems}):
+                texts = [t_ for a_, t_ in problems if a_ == aspect]
+                c.finding("%s:%s" % (site, aspect), texts[0][:110], "DiskFile.add_file evaluated for a %s file: %s" % (kind, "; ".join(texts)), where)
     # an empty file still gets its directory entry, its header / trailer bytes and its FAT chain: every step runs for zero data bytes too
     for kind, t_int, d_int in (("machine-language", 0x02, 0x00), ("BASIC", 0x00, 0x00)):
         env = dict(ctx.env)
